@@ -390,7 +390,8 @@ def genLine (mods : List (List UInt8 × List UInt8)) (toks : List String) : Stri
         match firstDiff r.bytes out 0 with
         | none =>
           let tOk := c.minOps ≤ r.target && (if c.maxOps > c.minOps then r.target < c.maxOps else r.target == c.minOps)
-          s!"gen id={id} ok len={out.length} target={r.target} body={r.bodyLen} n={r.instrs.length} framed={if r.framed then 1 else 0} left={rest.length} tbounds={if tOk then 1 else 0}"
+          let fOk := ftab.all (fun e => Spec.floatOk e.2)
+          s!"gen id={id} ok len={out.length} target={r.target} body={r.bodyLen} n={r.instrs.length} framed={if r.framed then 1 else 0} left={rest.length} tbounds={if tOk then 1 else 0} floats={ftab.length} floatok={if fOk then 1 else 0} wf={if Spec.wellFormed r.bytes then 1 else 0}"
         | some i =>
           s!"gen id={id} FAIL first_diff_at={i}:model_len={r.bytes.length}:impl_len={out.length}:model={hexOf ((r.bytes.drop (i - min i 4)).take 16)}:impl={hexOf ((out.drop (i - min i 4)).take 16)}"
 
@@ -670,6 +671,7 @@ def handle (mods : List (List UInt8 × List UInt8)) (line : String) : Option Str
   | some "src" => some (srcLine toks)
   | some "mut" => some (mutLine toks)
   | some "steer" => some (steerLine mods toks)
+  | some "hyps" => some s!"hyps mods={mods.length} modsok={if Spec.modsOk mods then 1 else 0}"
   | some other => some s!"unknown request {other}"
   | none => none
 
